@@ -16,7 +16,8 @@ Inductive wpart := WLit (s : string) | WVar (quoted : bool) (v : string).
 Definition word := list wpart.
 Inductive test :=
 | TFileF (w : word) | TFileE (w : word) | TFileD (w : word) | TStrZ (w : word)
-| TEq (a b : word) | TNe (a b : word) | TPrefix (a : word) (p : string).
+| TEq (a b : word) | TNe (a b : word) | TPrefix (a : word) (p : string)
+| TArgsLeft.                          (* [ $# != 0 ] *)
 
 Inductive cmd :=
 | CAssign (v : string) (w : word)
@@ -36,6 +37,7 @@ Inductive cmd :=
 with cmds := CNil | CCons (c : cmd) (r : cmds)
 with branches := BNil | BCons (t : test) (b : cmds) (r : branches)
 with arms := ANil | ACons (p : string) (b : cmds) (r : arms).
+Fixpoint capp (a b : cmds) : cmds := match a with CNil => b | CCons c r => CCons c (capp r b) end.
 
 (* ---------- strings and paths ---------- *)
 Fixpoint prefix_strip (p s : string) : option string :=
@@ -180,7 +182,8 @@ Definition get_env st (k : string) : string :=
 (* ---------- expansion (plain words: no IFS splitting, no globbing - see the theorem hypotheses) ---------- *)
 Definition expand_part st (p : wpart) : string * bool :=
   match p with WLit s => (s, true) | WVar q v => (get_var st v, q) end.
-Definition expand_str st (w : word) : string := concat_str (map (fun p => fst (expand_part st p)) w).
+(* join_str "" rather than concat_str: a single part expands to itself, not to itself +++ "" *)
+Definition expand_str st (w : word) : string := join_str "" (map (fun p => fst (expand_part st p)) w).
 (* an unquoted expansion that is empty yields no field at all *)
 Definition expand_word st (w : word) : list string :=
   if existsb (fun p => snd (expand_part st p)) w then [expand_str st w]
@@ -205,6 +208,7 @@ Definition eval_test st (t : test) : option bool :=
   | TEq a b => match expand_word st a, expand_word st b with [x], [y] => Some (String.eqb x y) | _, _ => None end
   | TNe a b => match expand_word st a, expand_word st b with [x], [y] => Some (negb (String.eqb x y)) | _, _ => None end
   | TPrefix a p => Some (match prefix_strip p (expand_str st a) with Some _ => true | None => false end)
+  | TArgsLeft => Some (match st.(pos) with [] => false | _ => true end)
   end.
 
 (* ---------- getopts ---------- *)
@@ -550,7 +554,8 @@ End Run.
 
 (* ---------- the world a script is started in ---------- *)
 Record config := mkConfig {
-  cf_filelist : nat;     (* 0: filelist.txt in the package dir, 1: in the start directory, else nowhere *)
+  cf_fl_dir : bool;      (* filelist.txt in the package directory *)
+  cf_fl_local : bool;    (* filelist.txt in the start directory *)
   cf_release : bool;     (* /home/atlas/release_setup.sh present *)
   cf_entry : bool;       (* /opt/cms/entrypoint.sh present *)
   cf_calib : bool;       (* /xaod_calibration_cache present *)
@@ -559,21 +564,23 @@ Record config := mkConfig {
 Definition default_filelist : string := "/data/a.root" +++ nl.
 Definition pkg_content (name : string) : string := "PKG " +++ name +++ nl.
 Definition opt_if {A} (b : bool) (a : A) : option A := if b then Some a else None.
-Definition init_fs (pkg : list string) (c : config) : fs :=
+Definition init_fs (pkg : list string) (slots : list path) (c : config) : fs :=
   [ (["scripts"], Some Dir) ] ++
   map (fun n => (["scripts"; n], Some (File (pkg_content n)))) pkg ++
-  [ (["scripts"; "filelist.txt"], opt_if (Nat.eqb c.(cf_filelist) 0) (File default_filelist));
+  [ (["scripts"; "filelist.txt"], opt_if c.(cf_fl_dir) (File default_filelist));
     (["work"], Some Dir);
-    (["work"; "filelist.txt"], opt_if (Nat.eqb c.(cf_filelist) 1) (File default_filelist));
+    (["work"; "filelist.txt"], opt_if c.(cf_fl_local) (File default_filelist));
     (["results"], Some Dir);
     (["out2"], Some Dir);
     (["home"], Some Dir); (["home"; "atlas"], Some Dir);
     (["home"; "atlas"; "release_setup.sh"], opt_if c.(cf_release) (File sourced_release));
     (["opt"], Some Dir); (["opt"; "cms"], Some Dir);
     (["opt"; "cms"; "entrypoint.sh"], opt_if c.(cf_entry) (File sourced_entry));
-    (["xaod_calibration_cache"], opt_if c.(cf_calib) Dir) ].
+    (["xaod_calibration_cache"], opt_if c.(cf_calib) Dir) ] ++
+  map (fun p => (p, None)) slots.
 Definition init_state (c : config) (f : fs) (args : list string) : state :=
-  mkState (if c.(cf_cvsroot) then [("CVSROOT", "preset")] else []) (if c.(cf_cvsroot) then ["CVSROOT"] else [])
+  (* CVSROOT unset and CVSROOT empty are the same to the scripts ([ -z "$CVSROOT" ]) and to the tools *)
+  mkState [("CVSROOT", if c.(cf_cvsroot) then "preset" else "")] ["CVSROOT"]
           ["work"] f args 0 false 0 0 [] false ["scripts"].
 
 (* one invocation of the script in the world f *)
@@ -598,6 +605,15 @@ Definition delivery (f : fs) (d : path) (p : string) : option path :=
   | Some q => Some (if is_dir f q then q ++ ["ANALYSIS.root"] else q)
   | None => None
   end.
+(* places that exist only after some run; listed (empty) in the initial table so that its shape is fixed *)
+Definition dest_slots : list path := [["results"; "ANALYSIS.root"]; ["out2"; "ANALYSIS.root"]; ["out2"; "named.root"]].
+Definition run_dir_atlas : path := ["work"; "rel"; "build"].
+Definition run_dir_cms : path := ["work"; "analysis"; "Analyzer"].
+Definition slots_atlas : list path :=
+  dest_slots ++ map (fun x => run_dir_atlas ++ x)
+    [["filelist.txt"]; ["bogus"]; ["bogus"; "data-ANALYSIS"]; ["bogus"; "data-ANALYSIS"; "ANALYSIS.root"]; ["rel_out.root"]].
+Definition slots_cms : list path :=
+  dest_slots ++ map (fun x => run_dir_cms ++ x) [["filelist.txt"]; ["ANALYSIS.root"]; ["rel_out.root"]].
 Definition pkg_atlas : list string := ["query.h"; "query.cxx"; "ATestRun_eljob.py"; "package_CMakeLists.txt"].
 Definition pkg_cms : list string := ["Analyzer.cc"; "analyzer_cfg.py"; "BuildFile.xml"; "copy_root_tree.C"].
 
@@ -605,10 +621,10 @@ Definition pkg_cms : list string := ["Analyzer.cc"; "analyzer_cfg.py"; "BuildFil
 Definition oracle_of (l : list nat) : nat -> bool := fun i => existsb (Nat.eqb i) l.
 Definition d_config (s : sexp) : option config :=
   match s with
-  | SList [a; b; c; d; e] =>
-    match d_nat a, d_bool b, d_bool c, d_bool d, d_bool e with
-    | Some a', Some b', Some c', Some d', Some e' => Some (mkConfig a' b' c' d' e')
-    | _, _, _, _, _ => None
+  | SList [a0; a; b; c; d; e] =>
+    match d_bool a0, d_bool a, d_bool b, d_bool c, d_bool d, d_bool e with
+    | Some a0', Some a', Some b', Some c', Some d', Some e' => Some (mkConfig a0' a' b' c' d' e')
+    | _, _, _, _, _, _ => None
     end
   | _ => None
   end.
@@ -637,11 +653,11 @@ Definition enc_result (r : result) : sexp :=
 Definition add_stale (f : fs) (l : list (string * string)) : fs :=
   fold_left (fun f' pc => match resolve [] (fst pc) with Some q => fs_set f' q (Some (File (snd pc))) | None => f' end) l f.
 (* (config stale history) -> one result per invocation *)
-Definition run_wire (s : cmds) (pkg : list string) (arg : sexp) : sexp :=
+Definition run_wire (s : cmds) (pkg : list string) (slots : list path) (arg : sexp) : sexp :=
   match arg with
   | SList [c; SList st; SList h] =>
     match d_config c, d_list d_stale st, d_list d_inv h with
-    | Some c', Some st', Some h' => SList (map enc_result (run_history s c' (add_stale (init_fs pkg c') st') h'))
+    | Some c', Some st', Some h' => SList (map enc_result (run_history s c' (add_stale (init_fs pkg slots c') st') h'))
     | _, _, _ => bad_input
     end
   | _ => bad_input
